@@ -10,6 +10,8 @@
    identify headers; nothing hashes to the genesis block's previous-block
    field), wf_hist (every headers message shorter than the in-memory window,
    no externally invoked rollBackToHeight, fewer than 1000000 headers).
+   Histories may contain restarts (ORestart: a new block manager built over
+   the same stores; window = stored tip only, no peers) anywhere.
 
    FINDING.  The statement "every change is Unchanged / Extended / Reorganised /
    CutAtCheckpoint" is FALSE of the code as modelled: the header loop stops at
@@ -319,5 +321,51 @@ Proof.
   | |- _ <= _ => vm_compute; discriminate
   | |- _ > _ => vm_compute; reflexivity
   | |- _ <> _ => vm_compute; discriminate
+  end; vm_compute; reflexivity.
+Qed.
+
+(* restarts: the state after a restart (a new block manager over the same
+   stores: window = stored tip only, no peers, no sync peer), then branches
+   forking BELOW the window from a peer that connected after the restart: the
+   equal-work and the lighter branch leave the chain unchanged, the heavier
+   one satisfies every hypothesis of C02_heavier_branch_adopted and is adopted
+   (the work of the displaced headers is summed from the store) *)
+Example C02_restart_nonvacuous :
+  let P := ex_P [] in
+  let s := run P (init_state P 7) exr_pre in
+  let ot := OHeaders 2 ex_now exr_tie in
+  let ol := OHeaders 2 ex_now exr_lighter in
+  let oh := OHeaders 2 ex_now exr_heavier in
+  wf_params P /\
+  no_collision P (exr_pre ++ [ot]) /\ wf_hist P (exr_pre ++ [ot]) /\
+  no_collision P (exr_pre ++ [ol]) /\ wf_hist P (exr_pre ++ [ol]) /\
+  no_collision P (exr_pre ++ [oh]) /\ wf_hist P (exr_pre ++ [oh]) /\
+  (let s0 := run P (init_state P 7) (take 4 exr_pre) in
+   (map hid (chain s0), fchain s0, map nheight (hl s0), syncPeer s0, cands s0, peers s0, ftipVar s0, events s0) =
+   ([100; 101; 102; 103], [7; 8; 9], [3], None, [], [], 2, [EConn 101 1; EConn 102 2])) /\
+  map hid (chain s) = [100; 101; 102; 103] /\ map nheight (hl s) = [3] /\ syncPeer s = Some 2 /\
+  map hid (chain (step P s ot)) = [100; 101; 102; 103] /\
+  map hid (chain (step P s ol)) = [100; 101; 102; 103] /\
+  forks_at (chain s) exr_heavier 1 = true /\
+  valid_run P ex_now (take 2 (chain s)) exr_heavier = exr_heavier /\
+  reached_cp P (chain s) <= 1 /\
+  work_of exr_tie = work_of (drop 2 (chain s)) /\
+  work_of exr_lighter < work_of (drop 2 (chain s)) /\
+  work_of exr_heavier > work_of (drop 2 (chain s)) /\
+  listened_to P ex_now s 2 = true /\
+  below_next_checkpoint P (chain s) (1 + zlen exr_heavier) = true /\
+  map hid (chain (step P s oh)) = [100; 101; 202; 203; 204] /\
+  fchain (step P s oh) = [7; 8] /\
+  events (step P s oh) = events s ++ [EDisc 103 3 102; EDisc 102 2 101].
+Proof.
+  cbv zeta.
+  repeat match goal with
+  | |- _ /\ _ => split
+  | |- wf_params _ => split; cbn; lia
+  | |- no_collision _ _ => apply no_collision_b_sound; vm_compute; reflexivity
+  | |- wf_hist _ _ => apply wf_hist_intro; vm_compute; [reflexivity|discriminate]
+  | |- _ <= _ => vm_compute; discriminate
+  | |- _ > _ => vm_compute; reflexivity
+  | |- _ < _ => vm_compute; reflexivity
   end; vm_compute; reflexivity.
 Qed.
